@@ -166,7 +166,7 @@ def r2b_no_write_after_add(report, repo):
   rule = 'C10-R2'
   TE = 'openhtf/core/test_executor.py'
   for rel, q, adder, obj in (
-      (TE, 'TestExecutor._subtest_context', 'add_subtest_record', None),
+      (TE, 'TestExecutor._execute_subtest', 'add_subtest_record', None),
       (TS, 'TestState.running_phase_context', 'add_phase_record', None)):
     f = repo.func(rel, q)
     g = lib.cfg(f)
@@ -210,8 +210,7 @@ def r2c_context_users(report, repo):
         if not isinstance(w, ast.With):
           continue
         for it in w.items:
-          if last_attr(it.context_expr) in ('_subtest_context',
-                                            'running_phase_context') and \
+          if last_attr(it.context_expr) in ('running_phase_context',) and \
               isinstance(it.optional_vars, ast.Name):
             n += 1
             var = it.optional_vars.id
@@ -230,7 +229,7 @@ def r2c_context_users(report, repo):
                 '%s writes %s after the `with` block that adds the record and '
                 'caches its rendering: the serialized record keeps the earlier '
                 'value' % (f.qualname, norm(bad[0]) if bad else ''))
-  report.expect_instances(rule, n, 3, 'record context users')
+  report.expect_instances(rule, n, 2, 'record context users')
 
 
 def r3b_sibling_rows(report, repo):
